@@ -2166,6 +2166,97 @@ func (g *gen) groupSmall(which string) {
 	}
 }
 
+// LARGE inputs (round 7 of seeded changes: block-wise / chunked / "long input" paths with thresholds of 64, 128,
+// 2048, 4096 or 8192; seams at multiples of 4096 bytes or clusters).  A handful of deterministic-shape cases per
+// group, because one Wrap of 4,300 clusters costs the quadratic Lean model ~15 s and the library itself ~3 s.
+// Run in the thorough tier, and in the quick tier when the library source differs from the pinned fingerprint.
+func (g *gen) groupBig(which string) {
+	g.noSib = true
+	o := rosed.Options{}
+	ed := func(t string) string { return g.editStep(t, o) }
+	switch which {
+	case "pos":
+		// 3-byte characters across every 4096-byte seam, positions behind 4096 clusters, empty / reversed
+		// selections in the back half, insert-then-delete, nesting depth 7
+		var sb strings.Builder
+		sb.WriteString(strings.Repeat("a", 1+g.r.Intn(3)))
+		for sb.Len() < 19000 {
+			sb.WriteString("\u4e16\u754c" + string(rune('a'+g.r.Intn(26))))
+		}
+		t := sb.String()
+		g.emit("prog", strings.Join([]string{ed(t), "chars,0,4100,4200", "insert,1,0,58.59", "string,2", "commit,2", "commitall,2"}, ";"))
+		g.emit("prog", strings.Join([]string{ed(t), "chars,0,5000,5000", "string,1", "chars,0,5000,10", "string,3", "chars,0,-10,-20", "string,5", "charsfrom,0,-3", "charsto,0,4097", "charcount,0"}, ";"))
+		g.emit("prog", strings.Join([]string{ed(t), "insert,0,4097,58.59", "delete,1,4097,4099", "overtype,0,6000,e9", "delete,0,4500,-100", "insert,0,-4097,5a"}, ";"))
+		g.emit("prog", strings.Join([]string{ed(t), "chars,0,100,8000", "chars,1,50,7000", "chars,2,40,6000", "chars,3,30,5500", "chars,4,20,5000", "chars,5,10,4500", "chars,6,4097,4200",
+			"insert,7,1,58", "string,8", "commit,8", "commitall,8"}, ";"))
+	case "wrap":
+		var ws []string
+		n := 0
+		for n < 4300 {
+			w := g.word(2, 9)
+			ws = append(ws, w)
+			n += len(w) + 1
+		}
+		t := strings.Join(ws, " ")
+		g.emit("prog", ed(t)+fmt.Sprintf(";wrap,0,%d,=", 40+g.r.Intn(40)))
+		long := "checksum: " + strings.Repeat("x", 4400+g.r.Intn(300)) + " (end of data)"
+		g.emit("prog", ed(long)+";collapse,0,=;wrap,0,80,=;wrap,0,6000,=")
+		seam := strings.Repeat("ab ", 1365) + "  cd ef " + strings.Repeat("gh ", 30)
+		g.emit("prog", ed(seam)+";collapse,0,=")
+		g.emit("prog", ed(seam+"\nlast line")+";justify,0,4400,=")
+	case "align":
+		t := "abc" + strings.Repeat(" ", 5000+g.r.Intn(200)) + "\n   xyz  \n" + strings.Repeat(" ", 4200) + "q"
+		for al := 1; al <= 3; al++ {
+			g.emit("prog", ed(t)+fmt.Sprintf(";align,0,%d,%d,=", al, 10+g.r.Intn(5)))
+		}
+	case "lines":
+		for _, nl := range []int{4096, 4097, 8193} {
+			t := strings.Repeat("x\n", nl-1) + "\n"
+			g.emit("prog", ed(t)+";linecount,0;apply,0,0,=;apply,0,2,=;lines,0,4090,4097;string,4;linesfrom,0,-2")
+			g.emit("prog", g.editStep(strings.Repeat("x\n", nl), rosed.Options{NoTrailingLineSeparators: true})+";linecount,0;apply,0,0,=;indent,0,1,=")
+		}
+		// more than 128 (and 256) paragraphs, the one at a multiple of 64 / 128 ending in a line separator
+		po := rosed.Options{PreserveParagraphs: true}
+		for _, np := range []int{66, 130, 260} {
+			var ps []string
+			for i := 0; i < np; i++ {
+				p := g.word(2, 5) + " " + g.word(2, 5) + "\n" + g.word(2, 4)
+				if i%64 == 63 || i%64 == 0 {
+					p += "\n"
+				}
+				ps = append(ps, p)
+			}
+			t := strings.Join(ps, "\n\n")
+			g.emit("prog", g.editStep(t, po)+";applypara,0,0,=;indent,0,1,=;align,0,2,12,=;justify,0,14,=;wrap,0,9,=")
+		}
+	case "comp":
+		var data [][]string
+		for i := 0; i < 70; i++ {
+			data = append(data, []string{fmt.Sprintf("item%d", i), g.word(2, 6), g.word(2, 3)})
+		}
+		g.emit("prog", g.editStep("", rosed.Options{TableHeaders: true})+fmt.Sprintf(";table,0,0,%s,40,=", encTable(data)))
+		g.emit("prog", g.editStep("", rosed.Options{TableHeaders: true, TableBorders: true})+fmt.Sprintf(";table,0,0,%s,50,=", encTable(data)))
+		for _, nd := range []int{66, 130} {
+			var defs [][2]string
+			for i := 0; i < nd; i++ {
+				defs = append(defs, [2]string{g.word(2, 6), g.line(2, 8)})
+			}
+			g.emit("prog", ed("")+fmt.Sprintf(";deftable,0,0,%s,40,=", encDefs(defs)))
+		}
+		var ws []string
+		n := 0
+		for n < 4250 {
+			w := g.word(2, 8)
+			if g.chance(0.2) {
+				w += "-"
+			}
+			ws = append(ws, w)
+			n += len(w) + 1
+		}
+		g.emit("prog", ed("")+fmt.Sprintf(";twocol,0,0,%s,%s,2,100,%s,=", encText(strings.Join(ws, " ")), encText("right column text"), encPct(0.8)))
+	}
+}
+
 func cmdGen(group, tier string, seed int64) int {
 	g := &gen{r: rand.New(rand.NewSource(seed)), out: bufio.NewWriterSize(os.Stdout, 1<<20), tier: tier, pfx: group + "-"}
 	defer g.out.Flush()
@@ -2198,6 +2289,8 @@ func cmdGen(group, tier string, seed int64) int {
 		g.groupSmall("align")
 	case "X-misc":
 		g.groupSmall("misc")
+	case "L-pos", "L-wrap", "L-align", "L-lines", "L-comp":
+		g.groupBig(group[2:])
 	case "G-class":
 		g.groupClass()
 	case "G-split":
